@@ -52,6 +52,13 @@ ben("paths_relative_to_script_directory", ["C16", "C12", "C11", "C17"], "outputs
      ("roberta_generator.py", "    my_file = open(file_name, \"w\")\n", "    import os\n    my_file = open(os.path.join(os.path.dirname(os.path.abspath(__file__)), file_name), \"w\")\n")])
 
 
+ben("report_extra_line_and_board_comment_legend", ["C16", "C12", "C15", "C11"], "one more line per report block, a legend line in the board comment, one more field per result entry",
+    [("conditionalrewards.py", "            file.write(f\"Total time              : {total_time}\\n\")\n",
+      "            file.write(f\"Total time              : {total_time}\\n\")\n            file.write(f\"Solver threshold        : 1e-06\\n\")\n"),
+     ("conditionalrewards.py", "                \"prob_min_rew\": reach_min_rewards\n", "                \"prob_min_rew\": reach_min_rewards,\n                \"pruned\": prune_states\n"),
+     ("roberta_generator.py", "    my_file.write(\"# Board:\\n#\")\n", "    my_file.write(\"# Board:\\n# legend: [reward|arrows(loose)]\\n#\")\n")])
+
+
 def main():
     os.makedirs(OUT, exist_ok=True)
     for name, props, why, edits in B:
